@@ -89,6 +89,22 @@ def run(ctx):
             s2, G2 = ev(cls, ovo, P[sg], A2)
             if not core.close(s, float(s2), rtol=tolr * scale, atol=tolr * scale) or not gclose(G[sg].ravel().tolist(), np.asarray(G2).ravel().tolist()):
                 ctx.violation(f"not invariant under a sample permutation: {s} vs {float(s2)}", "sample-perm", {**inp, "perm": sg.tolist()}, key=f"sample-perm:{cfg}", how=how)
+            # the same with ONE object evaluated on the original and then on the re-ordered input (what a training loop does with
+            # re-shuffled batches): the second answer must be the re-ordered first one as well
+            try:
+                shared = gl.real_gemini(cls, ovo, 1e-12)
+                Aarg = A if cls in ("mmd", "wass") else None
+                s1b, G1b = shared.evaluate(P.copy(), Aarg, return_grad=True)
+                s2b, G2b = shared.evaluate(P[sg].copy(), A2 if cls in ("mmd", "wass") else None, return_grad=True)
+                if not core.close(float(s1b), float(s2b), rtol=tolr * scale, atol=tolr * scale) or \
+                        not gclose(np.asarray(G1b, float)[sg].ravel().tolist(), np.asarray(G2b, float).ravel().tolist()):
+                    ctx.violation("one object evaluated on an input and then on the same input with the samples re-ordered: the second gradient is "
+                                  "not the re-ordered first one", "sample-perm", {**inp, "perm": sg.tolist(), "same_object": True},
+                                  key=f"sample-perm-same-object:{cfg}", how="g = <Class>(...); g.evaluate(P, A, True); g.evaluate(P[s], A[s][:, s], True)")
+                ctx.count("sample-perm:same-object")
+            except Exception as e:
+                ctx.violation(f"second evaluation on one object raised {type(e).__name__}: {e}", "sample-perm", {**inp, "perm": sg.tolist()},
+                              key=f"sample-perm-same-object-raise:{cfg}", how=how)
             # cluster permutation
             tau = rs.permutation(K)
             s3, G3 = ev(cls, ovo, P[:, tau], A)
